@@ -34,7 +34,8 @@ RS2LEAN_SPECS = [('words.json', 'WordsSrcGen.lean', 'SrcWords'), ('rdh.json', 'R
                  ('stateful.json', 'StateSrcGen.lean', 'SrcState'),
                  ('trigstats.json', 'TrigSrcGen.lean', 'SrcTrig'),
                  ('lanechecks.json', 'LaneSrcGen.lean', 'SrcLane'),
-                 ('alpidestats.json', 'AlpStatsSrcGen.lean', 'SrcAlpStats')]
+                 ('alpidestats.json', 'AlpStatsSrcGen.lean', 'SrcAlpStats'),
+                 ('scanner.json', 'ScanSrcGen.lean', 'SrcScan')]
 
 os.makedirs(CACHE, exist_ok=True)
 
